@@ -12,7 +12,9 @@ import (
 	"context"
 	"errors"
 	"fmt"
+	"io"
 	"net"
+	"runtime"
 	"sort"
 	"sync"
 	"testing"
@@ -37,7 +39,8 @@ type c17Case struct {
 	HookSeed  uint64   `json:"hook_seed"`
 	Client    string   `json:"client"` // plain | Chrome_115_IPv4 ...
 	Transfer  bool     `json:"mid_transfer"`
-	Retry     bool     `json:"retry,omitempty"` // the server validates addresses with a Retry
+	Retry     bool     `json:"retry,omitempty"`    // the server validates addresses with a Retry
+	Churn     int      `json:"churn_us,omitempty"` // > 0: 30 incoming streams reach EOF in the victim's readers this many microseconds before .. after the cause
 }
 
 var c17Calls = []string{"read", "write", "accept", "acceptuni", "opensync", "openunisync", "rcvdgram"}
@@ -139,7 +142,20 @@ func TestVerifC17Close(t *testing.T) {
 				if victim == "client" && si%4 == 3 {
 					client = []string{"Chrome_115_IPv4", "Firefox_116A"}[rng.IntN(2)]
 				}
-				add(c17Case{Name: fmt.Sprintf("%s/%s/set%03d", cause, victim, si), Cause: cause, Victim: victim, Blocked: s, IdleMs: idle, Client: client, Transfer: si%5 == 4, Retry: si%6 == 1})
+				cc := c17Case{Name: fmt.Sprintf("%s/%s/set%03d", cause, victim, si), Cause: cause, Victim: victim, Blocked: s, IdleMs: idle, Client: client, Transfer: si%5 == 4, Retry: si%6 == 1}
+				add(cc)
+			}
+		}
+	}
+	// streams that complete at the instant the connection ends (see Churn)
+	for rep := 0; rep < l.Pick(8, 60); rep++ {
+		for _, cause := range []string{"local-close", "remote-close", "transport-close", "transport-error", "stateless-reset"} {
+			for _, victim := range []string{"client", "server"} {
+				churn := []int{4900, 5000, 5000, 5100}[rng.IntN(4)] // local causes: when the FINs arrive
+				if cause == "remote-close" || cause == "transport-error" || cause == "stateless-reset" {
+					churn = 1 + rng.IntN(40) // causes that travel: right behind the FINs
+				}
+				add(c17Case{Name: fmt.Sprintf("churn/%s/%s/r%d", cause, victim, rep), Cause: cause, Victim: victim, Blocked: []string{"read", "opensync"}, IdleMs: 30000, Client: "plain", Churn: churn})
 			}
 		}
 	}
@@ -181,6 +197,21 @@ func runC17(l *evlog.Log, c *evlog.Case, cs *c17Case) {
 		}
 	})
 	defer verifhook.ClearActions()
+	if cs.Churn > 0 {
+		// The readers that were just woken need some real time to get going; the close path yields for a
+		// seeded number of scheduler rounds (real time, not virtual: virtual sleeps would let the readers
+		// finish first) right before it closes the streams map.
+		spin := func(string) {
+			hmu.Lock()
+			n := hr.IntN(4000)
+			hmu.Unlock()
+			for i := 0; i < n; i++ {
+				runtime.Gosched()
+			}
+		}
+		verifhook.SetAction("conn.run.beforeHandleCloseError", spin)
+		verifhook.SetAction("conn.handleCloseError.beforeStreamsClose", spin)
+	}
 
 	var world *quicworld.World
 	viol := func(sig, f string, a ...any) {
@@ -425,6 +456,9 @@ func runC17(l *evlog.Log, c *evlog.Case, cs *c17Case) {
 			}
 			run(b, func() error { _, err := victim.AcceptStream(bg); return err })
 		case "acceptuni":
+			if cs.Churn > 0 {
+				continue // the churn below accepts unidirectional streams itself
+			}
 			run(b, func() error { _, err := victim.AcceptUniStream(bg); return err })
 		case "opensync":
 			run(b, func() error { _, err := victim.OpenStreamSync(bg); return err })
@@ -489,6 +523,37 @@ func runC17(l *evlog.Log, c *evlog.Case, cs *c17Case) {
 		close(ctxWatch)
 	}()
 
+	// ---- streams that complete while the connection ends: 30 incoming unidirectional streams whose readers
+	// have consumed everything but the FIN; the peer sends all FINs now, they arrive half a round trip later,
+	// at (about) the instant the cause hits: Reads that complete a stream run concurrently with the close
+	if cs.Churn > 0 {
+		var churn []*quic.SendStream
+		for i := 0; i < 30; i++ {
+			ps, err := peer.OpenUniStream()
+			if err != nil {
+				break
+			}
+			ps.Write([]byte{1, 2, 3, 4, 5})
+			churn = append(churn, ps)
+		}
+		for range churn {
+			vs, err := victim.AcceptUniStream(ctx)
+			if err != nil {
+				break
+			}
+			bgwg.Add(1)
+			go func() {
+				defer bgwg.Done()
+				io.ReadAll(vs)
+			}()
+		}
+		time.Sleep(100 * time.Millisecond)
+		for _, ps := range churn {
+			ps.Close()
+		}
+		l.Count("churn_streams_finishing_at_the_cause", int64(len(churn)))
+		time.Sleep(time.Duration(cs.Churn) * time.Microsecond)
+	}
 	// ---- trigger
 	trigger := start()
 	wantVictim, wantPeer := "", ""
